@@ -604,7 +604,7 @@ OUTPUT_SHAPES = ["A(i,j,k,l) = B(i,j,k,l)", "A(i,j,k,l) = B(i,j,k,l) + C(i,j,k,l
                  "A(i,j,k) = B(i,j,l) * C(l,k)", "A(i,j) = B(i,j,k) * c(k)", "A(i,j) = B(i,j) + C(i,j)", "A(i,j) = B(i,k) * C(k,j)"]
 
 
-def output_exhaustive_cases(rng, index, n_shards, draws=3, values=gen.DYADIC):
+def output_exhaustive_cases(rng, index, n_shards, draws=3, values=gen.DYADIC, light_order4=True):
     """EVERY format of the output (all modes x all orderings: 384 for order 4, 48 for order 3, 8 for order 2) of a few
     simple shapes, inputs all-compressed / all-dense / random, and input sets with empty slices and
     fibres at every level (so position arrays get entries for parents that store nothing)."""
@@ -612,8 +612,11 @@ def output_exhaustive_cases(rng, index, n_shards, draws=3, values=gen.DYADIC):
     for text in OUTPUT_SHAPES:
         target, tree = gen.parse(text)
         orders = gen.tensor_orders(target, tree)
+        order4 = orders[target[1]] == 4
+        if order4 and light_order4 and "+" in text:
+            continue  # quick tiers: the order-4 copy only
         for out_fmt in taco.all_formats(orders[target[1]]):
-            for variant in ("compressed", "dense", "random"):
+            for variant in ("compressed", "dense") if (order4 and light_order4) else ("compressed", "dense", "random"):
                 k += 1
                 if k % n_shards != index:
                     continue
@@ -622,7 +625,7 @@ def output_exhaustive_cases(rng, index, n_shards, draws=3, values=gen.DYADIC):
                 else:
                     fm = {n: ("s" if variant == "compressed" else "d") * o for n, o in orders.items()}
                 fm[target[1]] = taco.fmt_text(*out_fmt)
-                for d in range(draws):
+                for d in range(2 if (order4 and light_order4) else draws):
                     case = build_case(rng, target, tree, dict(fm), values, origin="every-output-format", sizes_pool=[2, 3, 3, 4])
                     if d > 0:
                         dims = gen.tensor_dims(case.target, case.tree, case.sizes)
